@@ -327,11 +327,13 @@ package values
 //@ ensures size: iv.Interface() == box("size", string) ==> result.Interface() == box(len(pl_str(sv.wrapperValue.value)), int)
 //@ ensures other: iv.Interface() != box("size", string) ==> result.Interface() == nil
 
+// contains on a string: substring test with a string operand
 //@ func (values.stringValue).Contains
 //@ props C08 C09 C18 C01
 //@ panics nothing
 //@ requires arg: substr != nil
 //@ assigns nothing
+//@ ensures substring: is(substr.Interface(), string) ==> result == strings.Contains(pl_str(sv.wrapperValue.value), as(substr.Interface(), string))
 
 // ---- calling a filter through reflection (C08, C01) --------------------------------------
 // MustConvert and the function-valued default parameters are outside the contracts.
@@ -511,11 +513,13 @@ package values
 //@ panics nothing
 //@ requires arg: other != nil
 //@ assigns nothing
+//@ ensures delegates: result == values.Equal(v.value, other.Interface())
 //@ func (values.wrapperValue).Less
 //@ props C01 C09
 //@ panics nothing
 //@ requires arg: other != nil
 //@ assigns nothing
+//@ ensures delegates: result == values.Less(v.value, other.Interface())
 //@ func (values.wrapperValue).Int
 //@ props C01
 //@ panics values.TypeError
@@ -534,11 +538,15 @@ package values
 //@ loop 1 invariant noneSoFar: forall(k, 0, i, !values.Equal(pl_elem(av.wrapperValue.value, k), ev.Interface()))
 //@ ensures found: result ==> exists(k, 0, max(0, pl_len(av.wrapperValue.value)), values.Equal(pl_elem(av.wrapperValue.value, k), ev.Interface()))
 //@ ensures notFound: !result ==> forall(k, 0, pl_len(av.wrapperValue.value), !values.Equal(pl_elem(av.wrapperValue.value, k), ev.Interface()))
+// contains on a map: the operand is a key of the map (only an operand of the key type can be)
 //@ func (values.mapValue).Contains
 //@ props C01 C09
 //@ panics nothing
 //@ requires arg: iv != nil
 //@ assigns nothing
+//@ ensures nilOperand: iv.Interface() == nil ==> !result
+//@ ensures otherType: iv.Interface() != nil && typeof(iv.Interface()) != tkey(typeof(mv.wrapperValue.value)) ==> !result
+//@ ensures key: iv.Interface() != nil && typeof(iv.Interface()) == tkey(typeof(mv.wrapperValue.value)) ==> result == pl_mhas(mv.wrapperValue.value, iv.Interface())
 //@ func (values.genericSortable).Less
 //@ props C01 C15
 //@ panics nothing
